@@ -324,6 +324,39 @@ def malformed(rng):
     return base[:pos] + [bad] + base[pos:] + ["STOP"]
 
 
+# ------------------------------------------------------------------ aliasing through memo / DUP
+def alias_programs():
+    """Deterministic family: a mutable container is aliased (memo PUT/GET in every width, MEMOIZE, DUP) and
+    then MUTATED THROUGH ONE ALIAS while another alias ends up in the result -- the sharing the real VM
+    preserves (seeded change C05-2: GET handing out a copy of the memoised node)."""
+    one, two, key = ("BININT1", 1), ("BININT1", 2), ("SHORT_BINUNICODE", "k")
+    containers = {
+        "list": (["EMPTY_LIST"], [[one, "APPEND"], ["MARK", one, two, "APPENDS"]]),
+        "list2": (["MARK", two, "LIST"], [[one, "APPEND"]]),
+        "dict": (["EMPTY_DICT"], [[key, one, "SETITEM"], ["MARK", key, two, "SETITEMS"]]),
+        "dict2": (["MARK", key, one, "DICT"], [[("SHORT_BINUNICODE", "j"), two, "SETITEM"]]),
+        "set": (["EMPTY_SET"], [["MARK", one, "ADDITEMS"]]),
+    }
+    aliases = [
+        ([("BINPUT", 0)], [("BINGET", 0)]), ([("BINPUT", 7)], [("BINGET", 7)]),
+        (["MEMOIZE"], [("BINGET", 0)]), ([("PUT", 3)], [("GET", 3)]),
+        ([("LONG_BINPUT", 70000)], [("LONG_BINGET", 70000)]),
+    ]
+    for cname, (make, muts) in containers.items():
+        for mut in muts:
+            for put, get in aliases:
+                # (c, c) with the mutation applied through the fetched alias
+                yield make + put + get + mut + ["TUPLE2", "STOP"]
+                # result is the ORIGINAL object; the mutated alias is popped
+                yield make + put + get + mut + ["POP", "STOP"]
+                # the original sits inside an outer list; mutated later through the memo
+                yield ["EMPTY_LIST"] + make + put + ["APPEND"] + get + mut + ["POP", "STOP"]
+                # popped, fetched twice, mutated through the second fetch, first fetch is the result
+                yield make + put + ["POP"] + get + get + mut + ["POP", "STOP"]
+            yield make + ["DUP"] + mut + ["TUPLE2", "STOP"]
+            yield make + ["DUP"] + mut + ["POP", "STOP"]
+
+
 # ------------------------------------------------------------------ natural values
 class Inst:
     def __init__(self, a=1):
